@@ -339,7 +339,7 @@ def render_initial(rng, world, prop, knobs):
             if s not in pre_samples:
                 continue
             # split into 1-3 sets, possibly interleaved
-            nsets = rng.choice([1, 1, 2, 3])
+            nsets = rng.choice([1, 1, 2, 3]) if not knobs.get("many_sets") else rng.choice([8, 10, 12])
             ids = []
             for j in range(nsets):
                 ids.append(rng.choice([None, None, rng.randrange(1, 10**6)]))
@@ -539,8 +539,12 @@ def gen_store_case(rng, prop, tier):
         "prephase": rng.choice([None, None, "PS", "HP"]),
         "pre_truth": rng.choice(["main", "alt"]),
         "interleave": rng.random() < 0.3,
+        "many_sets": rng.random() < 0.08,
         "decoys": rng.random() < 0.35,
     }
+    if knobs["many_sets"]:
+        knobs["interleave"] = True
+        knobs["prephase"] = knobs["prephase"] or rng.choice(["PS", "HP"])
     state0 = render_initial(rng, w, prop, knobs)
     if prop == "C13" and rng.random() < 0.1:
         knobs["no_contig_lines"] = w["no_contig_lines"] = True
@@ -570,6 +574,8 @@ def gen_store_case(rng, prop, tier):
                 op["tag"] = rng.choice(["PS", "HP"])
                 if rng.random() < 0.15:
                     op["only_snvs"] = True
+                if rng.random() < 0.2:
+                    op["outfmt"] = rng.choice(["vcf.gz", "bcf"])
             if len(samples) > 1 and rng.random() < 0.35:
                 op["samples"] = sorted(rng.sample(samples, rng.randrange(1, len(samples))), key=samples.index)
             if len(chroms) > 1 and rng.random() < 0.3:
@@ -581,6 +587,8 @@ def gen_store_case(rng, prop, tier):
             op = {"op": "from_vcf", "source": rng.randrange(-1, k), "tag": rng.choice(["PS", "HP"]),
                   "base": rng.choice(["current", "current", "initial-unphased"])}
             ops.append(op)
+    if knobs["many_sets"] and prop == "C09":
+        ops.insert(0, {"op": "from_vcf", "source": -1, "tag": rng.choice(["PS", "HP"]), "base": rng.choice(["current", "initial-unphased"])})
     if prop == "C13" and not any(o["op"] == "unphase" for o in ops):
         ops.append({"op": "unphase"})
     if prop == "C13" and rng.random() < 0.5:
@@ -611,9 +619,11 @@ class StoreRun:
         self.viol.append((prop, violation(cls, message, signature)))
         self.log.add("violation", [prop, cls, signature])
 
-    def newfile(self, stem):
+    def newfile(self, stem, ext="vcf"):
         self.nfile += 1
-        return os.path.join(self.dir, "%02d_%s.vcf" % (self.nfile, stem))
+        if ext not in ("vcf", "vcf.gz", "bcf"):
+            ext = "vcf"
+        return os.path.join(self.dir, "%02d_%s.%s" % (self.nfile, stem, ext))
 
     # -- set-up
     def setup(self):
@@ -791,7 +801,9 @@ class StoreRun:
                 op = dict(op)
                 op.pop("only_snvs")
                 self.stats.inc("only_snvs_dropped_duplicate_positions")
-        out = self.newfile("phase_%s" % tag)
+        out = self.newfile("phase_%s" % tag, op.get("outfmt", "vcf"))
+        if op.get("outfmt", "vcf") != "vcf":
+            self.stats.inc("phase_output_" + op["outfmt"])
         self.last_input = self.current
         what = "op %d phase(lib=%s,tag=%s%s%s%s)" % (i, lib, tag, ",samples=%s" % ",".join(tsamples) if op.get("samples") else "",
                                                       ",chroms=%s" % ",".join(tchroms) if op.get("chroms") else "",
@@ -1148,7 +1160,7 @@ class HistEngine(Engine):
             size //= 2
         # simplify op arguments
         for j, o in enumerate(ops):
-            for key in ("samples", "chroms", "noref", "only_snvs"):
+            for key in ("samples", "chroms", "noref", "only_snvs", "outfmt"):
                 if o.get(key):
                     cand = dict(case)
                     o2 = dict(o)
